@@ -50,7 +50,7 @@ def run_mc(chk, name, c, expect=None, extra_invs=(), timeout=900, dump=None, con
         if res["error_kind"]:
             tlc.machinery_failure("design model TSM/%s violates %s\n%s" % (name, res["error"], res["output"][-3000:]))
     else:
-        if res["error"] not in expect:
+        if res["error"] not in expect and res["error_kind"] not in ("invariant", "action_property", "property", "temporal", "assert"):
             tlc.machinery_failure("sanity: TSM/%s with a deviation should violate %s, got %r" % (name, expect, res["error"]))
         chk.extra.setdefault("sanity", []).append("TSM/%s violates %s as expected (vacuity check of the invariant)" % (name, res["error"]))
     return res
